@@ -342,4 +342,148 @@ theorem cantelli_two_point (μ σ t i : ℚ) (hσ : 0 ≤ σ) (ht : 0 < t) (htt 
     · rw [below_two]; simp only [lt_irrefl, if_false]; split_ifs <;> linarith
     · rw [atMost_two]; simp only [le_refl, if_true]; split_ifs <;> linarith
 
+/-! ## second-moment bounds on `[0,1]` (the `x3` component of `min_max_mean_std`) -/
+
+/-- variance as second moment minus squared mean -/
+theorem second_moment (w x : ι → ℚ) (hsum : ∑ i, w i = 1) (m V : ℚ) (hm : ∑ i, w i * x i = m)
+    (hV : ∑ i, w i * (x i - m) ^ 2 = V) : ∑ i, w i * x i ^ 2 = V + m ^ 2 := by
+  have : ∑ i, w i * (x i - m) ^ 2 = ∑ i, w i * x i ^ 2 - 2 * m * ∑ i, w i * x i + m ^ 2 * ∑ i, w i := by
+    rw [Finset.mul_sum, Finset.mul_sum, ← Finset.sum_sub_distrib, ← Finset.sum_add_distrib]
+    apply Finset.sum_congr rfl; intro i _; ring
+  rw [this, hm, hsum] at hV; linarith
+
+/-- "second-moment Markov at the upper end": on `[0,1]`, `y(y-q) ≤ (1-q)·1{y>q}`, hence
+`E[Y²] - q E[Y] ≤ (1-q) P(Y>q) ≤ (1-q)(1-ℓ)` for every level `ℓ ≤ P(Y ≤ q)` -/
+theorem second_moment_lower (w x : ι → ℚ) (hw : ∀ i, 0 ≤ w i) (hsum : ∑ i, w i = 1)
+    (h0 : ∀ i, 0 ≤ x i) (h1 : ∀ i, x i ≤ 1) (q ℓ : ℚ) (hq0 : 0 ≤ q) (hq1 : q ≤ 1) (hℓ : ℓ ≤ atMost w x q) :
+    ∑ i, w i * x i ^ 2 - q * ∑ i, w i * x i ≤ (1 - q) * (1 - ℓ) := by
+  classical
+  have e : ∑ i, w i * x i ^ 2 - q * ∑ i, w i * x i = ∑ i, w i * (x i ^ 2 - q * x i) := by
+    rw [Finset.mul_sum, ← Finset.sum_sub_distrib]; apply Finset.sum_congr rfl; intro i _; ring
+  rw [e]
+  have hsplit := Finset.sum_filter_add_sum_filter_not univ (fun i => x i ≤ q) (fun i => w i * (x i ^ 2 - q * x i))
+  have hlow : ∑ i ∈ univ.filter (fun i => x i ≤ q), w i * (x i ^ 2 - q * x i) ≤ 0 := by
+    apply Finset.sum_nonpos; intro i hi
+    rw [Finset.mem_filter] at hi
+    have : x i ^ 2 - q * x i ≤ 0 := by nlinarith [h0 i, hi.2]
+    exact mul_nonpos_of_nonneg_of_nonpos (hw i) this
+  have hhigh : ∑ i ∈ univ.filter (fun i => ¬ x i ≤ q), w i * (x i ^ 2 - q * x i)
+      ≤ (1 - q) * ∑ i ∈ univ.filter (fun i => ¬ x i ≤ q), w i := by
+    rw [Finset.mul_sum]; apply Finset.sum_le_sum; intro i hi
+    rw [Finset.mem_filter] at hi
+    have hlt : q < x i := not_le.mp hi.2
+    have : x i ^ 2 - q * x i ≤ 1 - q := by nlinarith [h0 i, h1 i]
+    nlinarith [hw i]
+  have habove : ∑ i ∈ univ.filter (fun i => ¬ x i ≤ q), w i = 1 - atMost w x q := by
+    have := Finset.sum_filter_add_sum_filter_not univ (fun i => x i ≤ q) w
+    rw [hsum] at this; unfold atMost; linarith
+  rw [habove] at hhigh
+  have : (1 - q) * (1 - atMost w x q) ≤ (1 - q) * (1 - ℓ) :=
+    mul_le_mul_of_nonneg_left (by linarith) (by linarith)
+  linarith
+
+/-- mirror image at the lower end: `(1-y)(q-y) ≤ q·1{y<q}` on `[0,1]`, hence
+`E[(1-Y)(q-Y)] ≤ q P(Y<q) ≤ q ℓ` for every level `ℓ ≥ P(Y < q)` -/
+theorem second_moment_upper (w x : ι → ℚ) (hw : ∀ i, 0 ≤ w i) (hsum : ∑ i, w i = 1)
+    (h0 : ∀ i, 0 ≤ x i) (h1 : ∀ i, x i ≤ 1) (q ℓ : ℚ) (hq0 : 0 ≤ q) (hq1 : q ≤ 1) (hℓ : below w x q ≤ ℓ) :
+    q - q * ∑ i, w i * x i - ∑ i, w i * x i + ∑ i, w i * x i ^ 2 ≤ q * ℓ := by
+  classical
+  have e : q - q * ∑ i, w i * x i - ∑ i, w i * x i + ∑ i, w i * x i ^ 2 = ∑ i, w i * ((1 - x i) * (q - x i)) := by
+    have e' : ∑ i, w i * ((1 - x i) * (q - x i))
+        = q * ∑ i, w i - q * ∑ i, w i * x i - ∑ i, w i * x i + ∑ i, w i * x i ^ 2 := by
+      rw [Finset.mul_sum, Finset.mul_sum, ← Finset.sum_sub_distrib, ← Finset.sum_sub_distrib, ← Finset.sum_add_distrib]
+      apply Finset.sum_congr rfl; intro i _; ring
+    rw [e', hsum]; ring
+  rw [e]
+  have hsplit := Finset.sum_filter_add_sum_filter_not univ (fun i => x i < q) (fun i => w i * ((1 - x i) * (q - x i)))
+  have hhigh : ∑ i ∈ univ.filter (fun i => ¬ x i < q), w i * ((1 - x i) * (q - x i)) ≤ 0 := by
+    apply Finset.sum_nonpos; intro i hi
+    rw [Finset.mem_filter] at hi
+    have hge : q ≤ x i := not_lt.mp hi.2
+    have : (1 - x i) * (q - x i) ≤ 0 := by nlinarith [h1 i]
+    exact mul_nonpos_of_nonneg_of_nonpos (hw i) this
+  have hlow : ∑ i ∈ univ.filter (fun i => x i < q), w i * ((1 - x i) * (q - x i))
+      ≤ q * ∑ i ∈ univ.filter (fun i => x i < q), w i := by
+    rw [Finset.mul_sum]; apply Finset.sum_le_sum; intro i hi
+    rw [Finset.mem_filter] at hi
+    have : (1 - x i) * (q - x i) ≤ q := by nlinarith [h0 i, h1 i, hi.2]
+    nlinarith [hw i]
+  have : q * below w x q ≤ q * ℓ := mul_le_mul_of_nonneg_left hℓ hq0
+  unfold below at this
+  linarith
+
+/-- `t ↦ (c + t²)/(t - d)` decreases on `(d, d + r]` where `r² = c + d²` -/
+theorem ratio_antitone (c d m u : ℚ) (hdm : d < m) (hmu : m ≤ u) (hr : (u - d) ^ 2 ≤ c + d ^ 2) :
+    (c + u ^ 2) / (u - d) ≤ (c + m ^ 2) / (m - d) := by
+  have h1 : 0 < m - d := by linarith
+  have h2 : 0 < u - d := by linarith
+  rw [div_le_div_iff₀ h2 h1]
+  have hk : (m - d) * (u - d) ≤ (u - d) ^ 2 := by nlinarith
+  nlinarith [mul_nonneg (sub_nonneg.mpr hmu) (sub_nonneg.mpr (le_trans hk hr))]
+
+/-- and increases towards `d` from below on `[d - r, d)` -/
+theorem ratio_antitone' (c d m u : ℚ) (hmd : m < d) (hum : u ≤ m) (hr : (d - u) ^ 2 ≤ c + d ^ 2) :
+    (c + m ^ 2) / (m - d) ≤ (c + u ^ 2) / (u - d) := by
+  have h1 : 0 < d - m := by linarith
+  have h2 : 0 < d - u := by linarith
+  have e1 : (c + m ^ 2) / (m - d) = -((c + m ^ 2) / (d - m)) := by
+    rw [← neg_sub d m, div_neg]
+  have e2 : (c + u ^ 2) / (u - d) = -((c + u ^ 2) / (d - u)) := by
+    rw [← neg_sub d u, div_neg]
+  rw [e1, e2, neg_le_neg_iff, div_le_div_iff₀ h2 h1]
+  have hk : (d - m) * (d - u) ≤ (d - u) ^ 2 := by nlinarith
+  nlinarith [mul_nonneg (sub_nonneg.mpr hum) (sub_nonneg.mpr (le_trans hk hr))]
+
+
+/-! ## affine change of scale `y = (x - a)/r`, `r > 0` -/
+
+theorem atMost_scale (w x : ι → ℚ) (a r q : ℚ) (hr : 0 < r) :
+    atMost w (fun i => (x i - a) / r) ((q - a) / r) = atMost w x q := by
+  classical
+  unfold atMost
+  have : univ.filter (fun i => (fun i => (x i - a) / r) i ≤ (q - a) / r) = univ.filter (fun i => x i ≤ q) := by
+    ext i; simp only [Finset.mem_filter, Finset.mem_univ, true_and]
+    rw [div_le_div_iff_of_pos_right hr]; constructor <;> intro h <;> linarith
+  rw [this]
+
+theorem below_scale (w x : ι → ℚ) (a r q : ℚ) (hr : 0 < r) :
+    below w (fun i => (x i - a) / r) ((q - a) / r) = below w x q := by
+  classical
+  unfold below
+  have : univ.filter (fun i => (fun i => (x i - a) / r) i < (q - a) / r) = univ.filter (fun i => x i < q) := by
+    ext i; simp only [Finset.mem_filter, Finset.mem_univ, true_and]
+    rw [div_lt_div_iff_of_pos_right hr]; constructor <;> intro h <;> linarith
+  rw [this]
+
+theorem mean_scale (w x : ι → ℚ) (hsum : ∑ i, w i = 1) (a r μ : ℚ) (hμ : ∑ i, w i * x i = μ) :
+    ∑ i, w i * ((x i - a) / r) = (μ - a) / r := by
+  have : ∑ i, w i * ((x i - a) / r) = (∑ i, w i * x i - a * ∑ i, w i) / r := by
+    rw [Finset.mul_sum, ← Finset.sum_sub_distrib, div_eq_mul_inv, Finset.sum_mul]
+    apply Finset.sum_congr rfl; intro i _; ring
+  rw [this, hμ, hsum]; ring
+
+theorem var_scale (w x : ι → ℚ) (a r μ σ : ℚ) (hV : ∑ i, w i * (x i - μ) ^ 2 = σ ^ 2) :
+    ∑ i, w i * ((x i - a) / r - (μ - a) / r) ^ 2 = (σ / r) ^ 2 := by
+  have : ∑ i, w i * ((x i - a) / r - (μ - a) / r) ^ 2 = (∑ i, w i * (x i - μ) ^ 2) * (r ^ 2)⁻¹ := by
+    rw [Finset.sum_mul]; apply Finset.sum_congr rfl; intro i _
+    by_cases h : r = 0
+    · subst h; simp
+    · field_simp; ring
+  rw [this, hV]; ring
+
+/-- Bhatia–Davis: on `[a,b]` the variance is at most `(μ-a)(b-μ)` — "std compatible with the range" -/
+theorem var_le_range (w x : ι → ℚ) (hw : ∀ i, 0 ≤ w i) (hsum : ∑ i, w i = 1) (a b μ V : ℚ)
+    (ha : ∀ i, a ≤ x i) (hb : ∀ i, x i ≤ b) (hμ : ∑ i, w i * x i = μ) (hV : ∑ i, w i * (x i - μ) ^ 2 = V) :
+    V ≤ (μ - a) * (b - μ) := by
+  have hE := second_moment w x hsum μ V hμ hV
+  have hnn : 0 ≤ ∑ i, w i * ((x i - a) * (b - x i)) := by
+    apply Finset.sum_nonneg; intro i _
+    exact mul_nonneg (hw i) (mul_nonneg (by linarith [ha i]) (by linarith [hb i]))
+  have e : ∑ i, w i * ((x i - a) * (b - x i))
+      = (a + b) * ∑ i, w i * x i - ∑ i, w i * x i ^ 2 - a * b * ∑ i, w i := by
+    rw [Finset.mul_sum, Finset.mul_sum, ← Finset.sum_sub_distrib, ← Finset.sum_sub_distrib]
+    apply Finset.sum_congr rfl; intro i _; ring
+  rw [e, hμ, hE, hsum] at hnn
+  nlinarith
+
 end Pun.Law
